@@ -22,6 +22,9 @@ def S(name, run, quick=None, thorough=None, shards=(1, 16), race=False, tiers=("
 
 
 STAGES = {
+    "C07": [S("regress", "^TestC07Regress$"),
+            S("machine", "^TestC07$", quick=250, thorough=4000, shards=(6, 16), timeout=("15m", "90m")),
+            S("parallel-race", "^TestC07Parallel$", quick=80, thorough=2000, shards=(4, 16), race=True, timeout=("15m", "90m"))],
     "C08": [S("regress", "^TestC08Regress$"),
             S("limits", "^TestC08$", quick=250, thorough=2500, shards=(6, 16), timeout=("15m", "90m")),
             S("bombs", "^TestC08Bombs$", tiers=("thorough",))],
